@@ -22,7 +22,7 @@ package fsm
 //@ func incrementRightmostByte
 //@   results out
 //@   requires len(in) > 0
-//@   ensures [C12.succ] (exists p int :: 0 <= p && p < len(in) && old(in[p]) != 255 && sameSlice(out, in) && out[p] == old(in[p]) + 1 && (forall j int :: p < j && j < len(in) ==> old(in[j]) == 255 && out[j] == 0) && (forall j int :: 0 <= j && j < p ==> out[j] == old(in[j]))) || ((forall j int :: 0 <= j && j < len(in) ==> old(in[j]) == 255) && len(out) == len(in) + 1 && out[0] == 1 && (forall j int :: 1 <= j && j < len(out) ==> out[j] == 0))
+//@   ensures [C12.succ+C01] (exists p int :: 0 <= p && p < len(in) && old(in[p]) != 255 && sameSlice(out, in) && out[p] == old(in[p]) + 1 && (forall j int :: p < j && j < len(in) ==> old(in[j]) == 255 && out[j] == 0) && (forall j int :: 0 <= j && j < p ==> out[j] == old(in[j]))) || ((forall j int :: 0 <= j && j < len(in) ==> old(in[j]) == 255) && len(out) == len(in) + 1 && out[0] == 1 && (forall j int :: 1 <= j && j < len(out) ==> out[j] == 0))
 //@   modifies elems(in)
 //@   loop 0 invariant 0 <= i && i < len(in)
 //@   loop 0 invariant forall j int :: i < j && j < len(in) ==> old(in[j]) == 255 && in[j] == 0
@@ -58,10 +58,10 @@ package fsm
 // (never aliasing the pooled encoding buffers).
 //@ func iterOptionsForBounds
 //@   results opts, err
-//@   ensures [C12.bounds.fresh] err == nil ==> opts != nil && fresh(opts) && fresh(opts.LowerBound) && fresh(opts.UpperBound)
-//@   ensures [C12.bounds.low]   err == nil ==> isEnc(opts.LowerBound, 1, low)
-//@   ensures [C12.bounds.high]  err == nil && !isWildcard(high) ==> isEnc(opts.UpperBound, 1, high)
-//@   ensures [C12.bounds.wild]  err == nil && isWildcard(high) ==> isW(opts.UpperBound)
+//@   ensures [C12.bounds.fresh+C01+C09] err == nil ==> opts != nil && fresh(opts) && fresh(opts.LowerBound) && fresh(opts.UpperBound)
+//@   ensures [C12.bounds.low+C01+C09]   err == nil ==> isEnc(opts.LowerBound, 1, low)
+//@   ensures [C12.bounds.high+C01+C09]  err == nil && !isWildcard(high) ==> isEnc(opts.UpperBound, 1, high)
+//@   ensures [C12.bounds.wild+C01+C09]  err == nil && isWildcard(high) ==> isW(opts.UpperBound)
 //@   modifies nothing
 
 // ---------------------------------------------------------------- apply context (C01, C03)
@@ -329,13 +329,13 @@ package fsm
 //@   requires ctx != nil && del != nil && ctx.batch != nil && ctx.db != nil && ctx.batch.bdb == ctx.db && ctx.batch != ctx.db
 //@   before pebble.(*Batch).DeleteRange assert isW(end) ==> bytesOf(end) == Wb()
 //@   ensures [C01.del.single] err == nil && isNilSlice(del.RangeEnd) ==> forall k Bytes :: ctx.batch.vP[k] == (k == encK(1, bytesOf(del.Key)) ? false : old(ctx.batch.vP[k]))
-//@   ensures [C01.del.range]  err == nil && !isNilSlice(del.RangeEnd) ==> forall k Bytes :: ctx.batch.vP[k] == (inRange(k, encK(1, bytesOf(del.Key)), (isWildcard(del.RangeEnd) ? Wb() : encK(1, bytesOf(del.RangeEnd)))) ? false : old(ctx.batch.vP[k]))
+//@   ensures [C01.del.range+C12]  err == nil && !isNilSlice(del.RangeEnd) ==> forall k Bytes :: ctx.batch.vP[k] == (inRange(k, encK(1, bytesOf(del.Key)), (isWildcard(del.RangeEnd) ? Wb() : encK(1, bytesOf(del.RangeEnd)))) ? false : old(ctx.batch.vP[k]))
 //@   ensures [C01.del.values] err == nil ==> forall k Bytes :: ctx.batch.vP[k] ==> ctx.batch.vV[k] == old(ctx.batch.vV[k])
 //@   ensures [C01.del.count1] err == nil && isNilSlice(del.RangeEnd) && (del.Count || del.PrevKv) ==> resp != nil && resp.Deleted == (old(ctx.batch.vP[encK(1, bytesOf(del.Key))]) ? 1 : 0)
 //@   ensures [C01.del.countN] err == nil && !isNilSlice(del.RangeEnd) && del.Count && !del.PrevKv ==> resp != nil && resp.Deleted == cnt(old(ctx.batch.vP), encK(1, bytesOf(del.Key)), (isWildcard(del.RangeEnd) ? Wb() : encK(1, bytesOf(del.RangeEnd))))
 //@   ensures [C01.del.prevN]  err == nil && !isNilSlice(del.RangeEnd) && del.PrevKv ==> resp != nil && resp.Deleted == cnt(old(ctx.batch.vP), encK(1, bytesOf(del.Key)), (isWildcard(del.RangeEnd) ? Wb() : encK(1, bytesOf(del.RangeEnd)))) && len(resp.PrevKvs) == resp.Deleted
 //@   ensures [C01.del.nocount] err == nil && !(del.Count || del.PrevKv) ==> resp != nil && resp.Deleted == 0 && len(resp.PrevKvs) == 0
-//@   ensures [C01.del.book]   err == nil ==> bookSame(ctx.batch.vP, ctx.batch.vV, old(ctx.batch.vP), old(ctx.batch.vV))
+//@   ensures [C01.del.book+C12]   err == nil ==> bookSame(ctx.batch.vP, ctx.batch.vV, old(ctx.batch.vP), old(ctx.batch.vV))
 //@   ensures ctx.index == old(ctx.index) && ctx.leaderIndex == old(ctx.leaderIndex) && ctx.db == old(ctx.db)
 //@   ensures (ctx.batch == old(ctx.batch) || fresh(ctx.batch)) && ctx.batch != ctx.db && (err == nil ==> ctx.batch != nil && ctx.batch.bdb == ctx.db)
 //@   modifies ctx.batch, ctx.batch.vP, ctx.batch.vV
